@@ -53,6 +53,8 @@ fn value_of_slot(s: Slot) -> u32 {
 struct Run<L: Language, N: Analysis<L>> {
     eg: EGraph<L, N>,
     names: Vec<u32>,
+    late: Vec<usize>,      // late[i] = index of the operation that first writes name i (0 = from the start)
+    step: usize,
     handles: Vec<(Term, Option<AppliedId>)>,
     out: Vec<String>,
     with_data: bool,
@@ -84,7 +86,7 @@ impl<L: LangExt, N: Analysis<L> + 'static> Run<L, N> where N::Data: std::fmt::De
     fn extract_with(&self, cf: &str, h: &AppliedId) -> String { L::extract_with(self, cf, h) }
     fn name_of(&self, s: Slot) -> String {
         let v = value_of_slot(s);
-        for (i, n) in self.names.iter().enumerate() { if *n == v { return i.to_string(); } }
+        for (i, n) in self.names.iter().enumerate() { if *n == v && (self.late[i] == usize::MAX || self.late[i] < self.step) { return i.to_string(); } }
         format!("x{}", v)
     }
     fn node(&self, t: &Term) -> L {
@@ -245,13 +247,14 @@ fn permute(v: &mut Vec<usize>, k: usize, f: &mut dyn FnMut(&[usize])) {
     for i in k..v.len() { v.swap(k, i); permute(v, k + 1, f); v.swap(k, i); }
 }
 
-fn run_history<L: LangExt, N: Analysis<L> + Default + 'static>(names: Vec<u32>, ops: &[String], with_data: bool, light: bool) -> (Vec<String>, Option<String>) where N::Data: std::fmt::Debug {
-    let mut r: Run<L, N> = Run { eg: EGraph::new(N::default()), names, handles: Vec::new(), out: Vec::new(), with_data };
+fn run_history<L: LangExt, N: Analysis<L> + Default + 'static>(names: Vec<u32>, late: Vec<usize>, ops: &[String], with_data: bool, light: bool) -> (Vec<String>, Option<String>) where N::Data: std::fmt::Debug {
+    let mut r: Run<L, N> = Run { eg: EGraph::new(N::default()), names, late, step: 0, handles: Vec::new(), out: Vec::new(), with_data };
     let mut panic_msg = None;
     r.snapshot2("new", "", !light);
     let nops = ops.len();
     for (opi, line) in ops.iter().enumerate() {
         let toks = tokenize(line);
+        r.step = opi + 1;
         let res = catch_unwind(AssertUnwindSafe(|| {
             let mut extra = String::new();
             match toks[0].as_str() {
@@ -587,12 +590,19 @@ fn run_case(case: &[String]) -> String {
     let need_named = names.iter().filter(|v| *v % 4 == 2).map(|v| (v - 2) / 4 + 1).max().unwrap_or(0).min(named);
     for i in 0..need_named { let _ = Slot::named(&format!("n{}", i)); }
     let mut k = 1u32; while k < f0 { let _ = Slot::fresh(); k += 4; }
-    let ops: Vec<String> = case[2..].to_vec();
+    // optional line `late i:k i:k ...`
+    let mut late: Vec<usize> = vec![usize::MAX; names.len()];
+    let mut first_op = 2;
+    if case.len() > 2 && case[2].starts_with("late") {
+        for kv in case[2].split_whitespace().skip(1) { let mut p = kv.split(':'); let i: usize = p.next().unwrap().parse().unwrap(); let k: usize = p.next().unwrap().parse().unwrap(); late[i] = k; }
+        first_op = 3;
+    }
+    let ops: Vec<String> = case[first_op..].to_vec();
     let (steps, panic_msg) = match (lang, analysis) {
-        ("Lf", "()") => run_history::<Lf, ()>(names, &ops, false, light),
-        ("Lb", "()") => run_history::<Lb, ()>(names, &ops, false, light),
-        ("Lb", "MinSize") => run_history::<Lb, MinSize>(names, &ops, true, light),
-        ("Lb", "Depth") => run_history::<Lb, Depth>(names, &ops, true, light),
+        ("Lf", "()") => run_history::<Lf, ()>(names, late, &ops, false, light),
+        ("Lb", "()") => run_history::<Lb, ()>(names, late, &ops, false, light),
+        ("Lb", "MinSize") => run_history::<Lb, MinSize>(names, late, &ops, true, light),
+        ("Lb", "Depth") => run_history::<Lb, Depth>(names, late, &ops, true, light),
         _ => panic!("natdiff: unsupported instantiation {} {}", lang, analysis),
     };
     format!("{{\"case\":{},\"steps\":[{}],\"panic\":{}}}", jstr(id), steps.join(","), match panic_msg { Some(m) => jstr(&m), None => "null".to_string() })
